@@ -90,7 +90,12 @@ def run(report, tier, seed, driver, proofs_ok):
             for j in range(nd):
                 d = gen.gen_policy_document(rng, sid_prefix=f"r{i}d{j}s", with_condition=True)
                 docs.append((f"name{j}" if rng.random() < 0.4 else None, d))
-            props = copy.deepcopy(plant(rng, docs))
+            inside_doc = False
+            if nd >= 2 and rng.random() < 0.12:
+                # a document inside an unmodelled member of another document (PolicyDocument accepts extra members)
+                docs[0][1]["Extra"] = plant(rng, [docs[1]], depth=3)
+                inside_doc = True
+            props = copy.deepcopy(plant(rng, [d for j, d in enumerate(docs) if not (inside_doc and j == 1)]))
             if not isinstance(props, dict) or "Statement" in props:
                 # a resource's Properties object is never itself a policy document
                 props = {"Holder": props}
@@ -102,7 +107,9 @@ def run(report, tier, seed, driver, proofs_ok):
                 top_wrapper = True
             else:
                 top_wrapper = False
-            if docs and rng.random() < 0.25:
+            if inside_doc:
+                encoded = "inside-document"
+            elif docs and rng.random() < 0.25:
                 key = rng.choice(list(props))
                 shape = "document" if (isinstance(props[key], dict) and ("Statement" in props[key] or set(props[key]) >= {"PolicyName", "PolicyDocument"})) else (
                     "list" if isinstance(props[key], list) else ("object-containing-document" if isinstance(props[key], dict) else "scalar"))
@@ -146,7 +153,9 @@ def run(report, tier, seed, driver, proofs_ok):
         report.case({"resource": res}, common.jdump(res) if docs else None, sample=bool(docs) and len(common.jdump(res)) < 500)
         report.count("type:" + res["Type"])
         report.count("documents:%d" % len(docs))
-        if encoded:
+        if encoded == "inside-document":
+            report.count("document-inside-document")
+        elif encoded:
             report.count("json-string-encoded")
         if mo is not None and "driver_error" in mo:
             raise common.InfraError(str(mo))
@@ -170,7 +179,9 @@ def run(report, tier, seed, driver, proofs_ok):
             missing = [w for w in want_cmp if w not in got_cmp]
             extra = [g for g in got_cmp if g not in want_cmp]
             what = "embedded-document-not-returned" if missing else ("document-returned-more-than-once-or-spurious" if extra else "documents-differ")
-            if encoded and missing:
+            if encoded == "inside-document" and missing:
+                what = "document-inside-an-unmodelled-member-of-a-policy-document-not-returned"
+            elif encoded and missing:
                 what = "document-in-json-string-property-not-returned"
             if top_wrapper_of(res) and sorted(g[1] for g in got_cmp) == sorted(w[1] for w in want_cmp):
                 report.count("top-level-wrapper-name-unconstrained")
